@@ -54,6 +54,8 @@ type gnode struct {
 	crashed  bool
 	maxRound uint64
 	bcasts   []*gpbft.GMessage // every first transmission of this node, in order
+	reported     []*gpbft.Justification // every decision handed to Host.ReceiveDecision, accepted by the host or not
+	failDecision int                    // the host fails to accept the next so many decisions (e.g. a storage error)
 	begun    bool              // its start alarm has fired (the instance exists)
 }
 
@@ -118,8 +120,24 @@ func (n *gnode) Aggregate(keys []gpbft.PubKey) (gpbft.Aggregate, error) {
 	return n.net.backend.Aggregate(keys)
 }
 func (n *gnode) ReceiveDecision(_ context.Context, d *gpbft.Justification) (time.Time, error) {
+	n.reported = append(n.reported, d)
+	if n.failDecision > 0 {
+		n.failDecision--
+		return time.Time{}, errors.New("host could not persist the decision")
+	}
 	n.decided = d
 	return n.net.now.Add(1000 * time.Hour), nil
+}
+
+// addShadow adds a second personality of member `of` (same identity and key, its own participant): how a Byzantine member
+// that behaves "honestly" in two partitions at once is played.  Returns the index of the new node.
+func (g *gnet) addShadow(of int, in *gpbft.ECChain) int {
+	nd := &gnode{net: g, idx: len(g.nodes), id: g.nodes[of].id, honest: true, input: in, sentBy: map[slotKey][]*gpbft.GMessage{}, qualityDelivered: map[gpbft.ActorID]*gpbft.ECChain{}}
+	p, err := gpbft.NewParticipant(nd, gpbft.WithDelta(g.delta), gpbft.WithRebroadcastBackoff(1.3, 0, g.delta, 8*g.delta))
+	must(err)
+	nd.p = p
+	g.nodes = append(g.nodes, nd)
+	return nd.idx
 }
 func (n *gnode) RequestBroadcast(mb *gpbft.MessageBuilder) error {
 	msg, err := mb.Build(n.net.ctx, n.net.backend, n.id)
@@ -520,7 +538,18 @@ func (g *gnet) maxRound() uint64 {
 func (g *gnet) checkDecisions() {
 	var first *gpbft.ECChain
 	for _, n := range g.nodes {
-		if !n.honest || n.decided == nil {
+		if !n.honest {
+			continue
+		}
+		// everything an honest participant REPORTED counts, whether or not its host managed to accept it
+		for _, rd := range n.reported {
+			if first == nil {
+				first = rd.Vote.Value
+			} else if !first.Eq(rd.Vote.Value) {
+				g.viol("any two honest participants that report a decision report the same chain", "c01-disagreement", fmt.Sprintf("%s vs %s (node %d, %d decisions reported)", first, rd.Vote.Value, n.idx, len(n.reported)))
+			}
+		}
+		if n.decided == nil {
 			continue
 		}
 		d := n.decided
